@@ -118,10 +118,20 @@ def lifetime_descs(draw, U, classes=None, well_conditioned=False):
             el = st.floats(0.15 * mean_dt, 2.5 * mean_dt)
         else:
             el = st.floats(0.6, 4.0)
-        kind = draw(st.sampled_from(["scalar", "scalar", "array", "array", "cohort"]))
+        kind = draw(st.sampled_from(["scalar", "scalar", "array", "array", "cohort", "drift"]))
         if kind == "scalar":
             prms[name] = {"kind": "scalar", "v": draw(el)}
+        elif kind == "drift" and len(letters) > 1:
+            # labels share the first cohort's value and drift apart over the cohorts
+            pl = ["t"] + draw(gen.ordered_subtuple(letters[1:], min_size=1))
+            base = draw(el)
+            nlab = gen._size(U, pl[1:])
+            slopes = draw(st.lists(st.sampled_from([0.0, 0.05, 0.1, 0.2, -0.03]), min_size=nlab, max_size=nlab))
+            vals = [base * (1 + s_ * ti) for ti in range(len(grid)) for s_ in slopes]
+            prms[name] = {"kind": "array", "letters": pl, "vals": vals}
         else:
+            if kind == "drift":
+                kind = "cohort"
             if kind == "cohort":
                 pl = ["t"] + draw(gen.ordered_subtuple(letters[1:]))
                 pl = list(draw(st.permutations(pl)))
@@ -176,14 +186,23 @@ def stock_configs(draw, classes=("simple", "idsm", "sdsm_manual", "sdsm_lapack")
         cfg["lt"] = draw(lifetime_descs(U, classes=lt_classes, well_conditioned=well_conditioned or cfg["cls"].startswith("sdsm")))
         el = sgn if (signed or cfg["cls"].startswith("sdsm")) else pos
         cfg["driver"] = draw(st.lists(el, min_size=n, max_size=n))
+        if draw(st.integers(0, 3)) == 0:
+            # re-parameterise and recompute on the same object (as in a scenario loop)
+            cfg["reprm"] = draw(lifetime_descs(U, classes=(cfg["lt"]["cls"],), well_conditioned=True))["prms"]
+    # flows in any unit: tiny and huge magnitudes are as legitimate as ordinary ones
+    cfg["scale"] = draw(st.sampled_from([1.0, 1.0, 1.0, 1e-9, 1e-4, 1e6]))
     return cfg
+
+
+def driver_values(cfg, key="driver"):
+    return np.array(cfg[key], dtype=float) * float(cfg.get("scale", 1.0))
 
 
 def driver_array(cfg, vals=None, cls=None):
     U = universe_of(cfg)
     letters = gen.uletters(U)
     shape = tuple(len(d["items"]) for d in U["dims"])
-    v = np.array(vals if vals is not None else cfg["driver"], dtype=float).reshape(shape)
+    v = np.array(vals if vals is not None else driver_values(cfg), dtype=float).reshape(shape)
     return (cls or fd.StockArray)(dims=build.dimset(U, letters), values=v)
 
 
@@ -195,7 +214,7 @@ def build_stock(cfg, driver=None, lifetime=None):
     d = driver_array(cfg, driver)
     c = cfg["cls"]
     if c == "simple":
-        out = driver_array(cfg, cfg["outflow"])
+        out = driver_array(cfg, driver_values(cfg, "outflow"))
         return fd.SimpleFlowDrivenStock(dims=dims, inflow=d, outflow=out, name="s")
     lm = lifetime if lifetime is not None else build_lifetime(U, cfg["lt"])
     if c == "idsm":
